@@ -680,6 +680,10 @@ def _analyze_simple_command(
         j += WRAPPER_OPERANDS.get(base, 0)
 
         if j < len(tokens):
+            # Only bash reads NAME=value words as assignments (so they may follow
+            # the keyword `time`); a wrapper program runs such a word as a command
+            if base != "time" and _is_assignment_word(tokens[j]):
+                return Decision("ask", f"{base} {tokens[j]}")
             return _analyze_simple_command(tokens[j:], config, cwd, remote=remote)
         return Decision("ask", base)
 
